@@ -90,6 +90,7 @@ type FnCtx struct {
 	localMaps map[string]bool
 	refArr   map[string]bool
 	siteCount int
+	suppress int
 	siteOrd  map[ssa.Instruction]int
 	lastSite string
 	lastSiteName string
@@ -198,7 +199,7 @@ func (fc *FnCtx) defineQ(f string) {
 }
 
 func (fc *FnCtx) assume(f, why string) {
-	if f == "true" {
+	if f == "true" || fc.suppress > 0 {
 		return
 	}
 	fc.seq++
@@ -227,6 +228,9 @@ func (fc *FnCtx) onHavoc(name, term string, prev *State) {
 }
 
 func (fc *FnCtx) addOblig(o *Oblig) {
+	if fc.suppress > 0 {
+		return // inside a specification-level evaluation (closure applied in a contract)
+	}
 	fc.seq++
 	o.block = fc.curBlock
 	o.seq = fc.seq
@@ -500,7 +504,7 @@ func (fc *FnCtx) embRef(st types.Type, f int, obj string) string {
 	n := fc.embFn(st, f)
 	t := sx(sym(n), obj)
 	key := "emb:" + t
-	if !fc.ground[key] {
+	if !fc.ground[key] && !strings.Contains(t, "q!") {
 		fc.ground[key] = true
 		fc.declareFun("embkind", "(Int) Int")
 		fc.define(sAnd(sEq(sx(sym(n+"!inv"), t), obj), sImp(sNot(sEq(obj, "0")), sAnd(sx("<", t, "0"), sEq(sx("embkind", t), fc.typeID2("emb:"+n))))))
@@ -523,7 +527,7 @@ func (fc *FnCtx) elemRef(et types.Type, base, idx string) string {
 	n := fc.elemFn(et)
 	t := sx(sym(n), base, idx)
 	key := "elem:" + t
-	if !fc.ground[key] {
+	if !fc.ground[key] && !strings.Contains(t, "q!") {
 		fc.ground[key] = true
 		fc.declareFun("embkind", "(Int) Int")
 		fc.define(sAnd(sEq(sx(sym(n+"!b"), t), base), sEq(sx(sym(n+"!i"), t), idx), sx("<", t, "0"), sEq(sx("embkind", t), fc.typeID2("elem:"+n))))
